@@ -142,50 +142,57 @@ def _validate_chunk(trace_module, in_path, out_path, extra_env, timeout, xmx):
     return verdicts, wall
 
 
-def validate(trace_module, events, chunk=10000, jobs=16, extra_env=None, timeout=1800, xmx='3g', keep=False):
+def validate(trace_module, events, chunk=10000, jobs=16, extra_env=None, timeout=1800, xmx='3g', header=None):
     """Have TLC judge `events` (an iterable of JSON-serialisable values, one per line) with
     spec/trace/<trace_module>.tla.  Returns the list of verdict objects in event order.
-    Chunks are written, validated by up to `jobs` single-worker JVMs in parallel, and deleted."""
+    Chunks are written, validated by up to `jobs` single-worker JVMs in parallel, and deleted.
+    `header` (optional) is written as the first line of every chunk."""
+    return validate_groups(trace_module, [(header, events)], chunk, jobs, extra_env, timeout, xmx)[0]
+
+
+def validate_groups(trace_module, groups, chunk=10000, jobs=16, extra_env=None, timeout=1800, xmx='3g'):
+    """groups = [(header or None, iterable of events)]; returns one verdict list per group."""
     base = tempfile.mkdtemp(prefix='ev-', dir=scratch())
     futures = []
-    results = {}
-    n_chunks = 0
+    counter = [0]
     with concurrent.futures.ThreadPoolExecutor(max_workers=jobs) as ex:
-        buf = []
 
-        def flush():
-            nonlocal buf, n_chunks
+        def flush(g, hdr, buf):
             if not buf:
                 return
-            k = n_chunks
-            n_chunks += 1
+            k = counter[0]
+            counter[0] += 1
             ip = os.path.join(base, 'in%05d.ndjson' % k)
             op = os.path.join(base, 'out%05d.ndjson' % k)
             with open(ip, 'w') as f:
+                if hdr is not None:
+                    f.write(json.dumps(hdr, separators=(',', ':')))
+                    f.write('\n')
                 for e in buf:
                     f.write(json.dumps(e, separators=(',', ':')))
                     f.write('\n')
-            n = len(buf)
-            buf = []
-            futures.append((k, n, ip, op, ex.submit(_validate_chunk, trace_module, ip, op, extra_env, timeout, xmx)))
+            futures.append((g, len(buf), ip, op,
+                            ex.submit(_validate_chunk, trace_module, ip, op, extra_env, timeout, xmx)))
 
-        for e in events:
-            buf.append(e)
-            if len(buf) >= chunk:
-                flush()
-        flush()
-        out = []
-        for k, n, ip, op, fut in futures:
+        for g, (hdr, events) in enumerate(groups):
+            buf = []
+            for e in events:
+                buf.append(e)
+                if len(buf) >= chunk:
+                    flush(g, hdr, buf)
+                    buf = []
+            flush(g, hdr, buf)
+        out = [[] for _ in groups]
+        for g, n, ip, op, fut in futures:
             verdicts, wall = fut.result()
             if len(verdicts) != n:
-                raise MachineryError('%s: %d verdicts for %d events (chunk %d)' % (trace_module, len(verdicts), n, k))
-            out.extend(verdicts)
-            if not keep:
-                for p in (ip, op):
-                    try:
-                        os.unlink(p)
-                    except OSError:
-                        pass
+                raise MachineryError('%s: %d verdicts for %d events' % (trace_module, len(verdicts), n))
+            out[g].extend(verdicts)
+            for p in (ip, op):
+                try:
+                    os.unlink(p)
+                except OSError:
+                    pass
     return out
 
 
